@@ -20,7 +20,7 @@ CLAIMED = {
    technique='static analysis: exception-channel screening, libxml2 acquire/release and use-after-release dataflow, call-graph SCC classification with visited-set dominance, CFG gate rules',
    text='Necessary conditions of crash freedom on every path: std::sto*/.at()/std::string(const char*)/recognisers are screened or handled and there is no throw; libxml2 resources are released once on every exit and never read after release; '
         'each of the 83 recursive call-graph cycles is classified by the step it takes and every step along a reference that input can make cyclic (units by name, imports, equivalences) is dominated by a visited/history test or sits behind a verified gate; '
-        'analyser, generator, parser and flattening entry gates dominate the code they protect; document roots and import-source models are tested before use. Absence of all undefined behaviour is not claimed.',
+        'analyser, generator, parser and flattening entry gates dominate the code they protect; document roots and import-source models are tested before use. Absence of all undefined behaviour is not claimed. Added after round-2 seeding: the text of ci/cn tokens is read through the same comment-skipping accessor by validator and analyser; number-or-reference decisions on initial values use isCellMLReal; by-name lookups (units/variable/component) are null-tested or covered by a named validator/gate invariant; library entries are non-null and inserted only on succeeding paths.',
    note='Trusted: clang AST/CFG/call graph, C++ exception specifications, libxml2 contracts named in the exemption reasons. Seven unguarded units-reference recursions are listed as known findings (replayed stack exhaustion on units a->b->a); three crash defects were repaired.',
    ref='DESIGN.md section 4, C01'),
  'C02': dict(
@@ -28,7 +28,7 @@ CLAIMED = {
    text='(V) the 35 (element, attribute) pairs and 13 elements written by printer.cpp equal those recognised by the CellML 2.0 branches of parser.cpp; (E) each of the 54 values spliced into an attribute is escaped, numeric or a generated id; '
         '(G) the printer reads every serialisable data member of the six entity classes; (M) for each attribute the members read by the printer and written (or used for lookup) by the parser intersect, and <unit> attributes keep their position between unitAttributes and addUnit; '
         '(O) connections keep (component_k, variable_k) together on both sides; (L) the parser creates a placeholder variable only where the lookup failed; (H) parser state is re-initialised per document; (N) doubles are written with digits10 precision; '
-        '(R) an empty result is only returned for a null model or by libxml2. Necessary conditions of the round trip; equality of the re-parsed model, libxml2 and whitespace normalisation of math are not decided.',
+        '(R) an empty result is only returned for a null model or by libxml2. Necessary conditions of the round trip; equality of the re-parsed model, libxml2 and whitespace normalisation of math are not decided. Added after round-2 seeding: (E2) no ordering comparison on plain char in the text-handling files (checked against a fixture); (I1) per-child attributes are fetched with the loop index.',
    note='Trusted: clang AST/CFG; libxml2 reverses the escaping; the element a loader function reads (LOADER_ELEMENT table in sa/xmlvocab.py). The missing escaping was replayed and repaired (fix commit 125ebbf). H borrows C12.H1 and N borrows C16.P1 (same code, same rule).',
    ref='DESIGN.md section 4, C02'),
  'C03': dict(
@@ -37,7 +37,7 @@ CLAIMED = {
         'and where no parentheses are added the syntactic root of the child\'s emitted text (a fixpoint over transparent forms) must bind tightly enough under the target language\'s precedence and associativity; `-` is never glued to text starting with `-`. '
         '(D) generateCode has a case for every AST type and emits through the profile string of the same stem. (S) the unit-scaling factor comes from Units::scalingFactor(used variable, primary variable) in analyser and generator, '
         'is applied to every CI node except the computed variable and the variable of integration, and its power (s or 1/s) at each of the five application sites is the one the equations require, evaluated symbolically through the helper, the call-site expression and scaleAst. '
-        '(E) dependencies are emitted before an equation. Necessary conditions of "the generated code computes what the equations say"; no code is generated, compiled or run, and numerical results are not decided.',
+        '(E) dependencies are emitted before an equation. Necessary conditions of "the generated code computes what the equations say"; no code is generated, compiled or run, and numerical results are not decided. Added later: (L) the analyser turns an equation round exactly when its right-hand side is its unknown (decision table over equation type x right-hand-side shape); (S4) scaleEquationAst walks the same child fields the analyser links through; (H) no generator state survives a call.',
    note='Trusted: clang AST/CFG; the C and Python precedence tables in sa/paren.py; MathML structure enforced by the validator (EQUALITY/PIECE/OTHERWISE/BVAR never are operands). The decision-table model was cross-validated once, as triage, against the real generator on 2577 instances (triage/paren/replay.py). '
         'Profiles with a power operator or without a conditional operator are custom profiles and are not enumerated. The 128 missing-parentheses keys found on the pinned tree were all replayed and repaired (fix commit 494beed).',
    ref='DESIGN.md section 4, C03'),
@@ -45,7 +45,7 @@ CLAIMED = {
    technique='static analysis: traversal-completeness rules over a frozen caller->callee table (full loops, no early exit, no extra guards), dedupe-set discipline, cited-rule floor, vocabulary agreement between validator and analyser',
    text='The validator traversals that reach every component, variable, reset, units and identifier are complete (full child loops, no early exit, descent under no condition but the per-entity import exemption decided on the entity itself); '
         '"reported" sets are extended only where their membership test guarded the report; every reference rule cited when the check was written is still cited by an error-level site; the MathML elements accepted by the validator are exactly those the analyser dispatches; '
-        'every created issue is described and added. Necessary conditions of "every rule violation is reported"; rule predicates and false positives are not decided.',
+        'every created issue is described and added. Necessary conditions of "every rule violation is reported"; rule predicates and false positives are not decided. Added after round-2 seeding: (W1) recursive MathML walks continue under null tests only; (S1) ids of shared import sources are entered once per object; the recogniser rules C16.N1/G1/U2 are borrowed.',
    note='Trusted: clang AST/CFG; the frozen traversal table and rule floor (sa/tables/validator_rules.json).',
    ref='DESIGN.md section 4, C04'),
  'C05': dict(
@@ -63,7 +63,7 @@ CLAIMED = {
         'no state-changing entity method, Impl write or mutating helper may be applied to an object originating from the model passed in, from ImportSource::model() or from an import source, and the result must originate from clone(). '
         '(G) the flat model is created behind the null/import-issue/definedness gates and returned only after `while (hasImports())` ended with no early exit. (V) helpers that walk an imported component re-enter the walk for every child (whole subtree). '
         '(A) flags that accumulate over a loop are only raised. (U) renaming a units is followed by rewriting both variables and cn elements and is reported to the caller. (K) the clone() rules of C11 hold (the flat model is built from clones only). '
-        'Necessary conditions of "inputs unchanged", "import-free" and "renamed consistently"; validity and numerical equivalence of the flat model are not decided.',
+        'Necessary conditions of "inputs unchanged", "import-free" and "renamed consistently"; validity and numerical equivalence of the flat model are not decided. Added after round-2 seeding: descent into children is unconditional; no degenerate iterator ranges; no ascending index loop over a collection that its body shrinks; cycle-guard paths are balanced.',
    note='Trusted: clang AST/CFG/call graph; "state-changing" is computed from method bodies; navigation from a clone stays in the clone (re-checked by the borrowed C11.D1). The transient add/remove of a dummy variable on a library component in indexStackOf is accepted only while the pairing rule holds. '
         'Two defects were replayed and repaired (fix commits 86ae2d4, 1d5c1b8).',
    ref='DESIGN.md section 4, C06'),
@@ -71,7 +71,7 @@ CLAIMED = {
    technique='static analysis: history-test dominance on import recursion, interprocedural fails=>logged summaries, CFG ordering rules (fresh start, commit-on-success), dataflow slices (normalised keys, base path)',
    text='Every recursive step along an import is dominated by a history test whose history is handed on; every path on which a fetch/check function, resolveImports or flattenModel yields its failure value has added an issue; '
         'a resolution starts with removeAllIssues and clearImports; library keys are normalised on every access; a model is cached and attached to its import source only on paths that go on to succeed; '
-        'the base handed to nested fetches derives from the base the importing file was fetched with. Necessary conditions; "succeeds exactly when possible" and the file system are not decided.',
+        'the base handed to nested fetches derives from the base the importing file was fetched with. Necessary conditions; "succeeds exactly when possible" and the file system are not decided. Added after round-2 seeding: (H1) fetchComponent/fetchUnits push and pop the visit history alike; (V1) visit-everything walks descend below imported components too.',
    note='Trusted: clang AST/CFG/call graph; checkForImportCycles is a correct membership test. The missing local-cycle test in checkUnitsForCycles is keyed under C01.R1.',
    ref='DESIGN.md section 4, C07'),
  'C08': dict(
@@ -79,7 +79,7 @@ CLAIMED = {
    text='(T) standardUnitsList/standardMultiplierList/standardPrefixList and the enum spellings are read from their initialisers and compared value by value with the SI definitions and with each other; '
         '(M) the scale and base-exponent reducers in units.cpp, validator.cpp and analyser.cpp are abstracted from their ASTs (roles resolved by position, not by name) and must yield the same polynomial as the algebra of units '
         'on T->R->Q->standard unit, under the property\'s exponent-1 restriction; every recursive call must carry the inherited exponent and per-child accumulators must be fresh; (G) null/compatibility gates precede the reductions. '
-        'No scaling factor is computed by running the library; the relation axioms on doubles are not decided.',
+        'No scaling factor is computed by running the library; the relation axioms on doubles are not decided. Added after round-2 seeding: (P1) cycle-guard paths of the reducers are popped on every non-failing path.',
    note='Trusted: sa/tables/si.json (hand-written from the SI brochure), clang AST. If a reducer is restructured beyond the accumulate/recursive-call shape the anchors vanish (exit 2). Two reducer defects were replayed and repaired.',
    ref='DESIGN.md section 4, C08'),
  'C09': dict(
@@ -87,7 +87,7 @@ CLAIMED = {
    text='Over the object model and the services that accept entities: no exported method dereferences a shared_ptr parameter (directly or through callee summaries) without a dominating null test; element accesses by a size_t '
         'parameter are dominated by index < size of the same container; only the owning classes write the child containers; every insertion sets the parent of the inserted element and detaches it from its previous parent; '
         'every erase/overwrite clears the parent of the erased element itself; pointer lookups try identity first; setParent in Component::doAddComponent is reached only where the component is neither the new parent nor its ancestor; '
-        'equivalences are linked/unlinked on both sides. Necessary conditions on every path; the heap after arbitrary histories and use-after-free are not explored.',
+        'equivalences are linked/unlinked on both sides. Necessary conditions on every path; the heap after arbitrary histories and use-after-free are not explored. Added after round-2 seeding: (S1) both members of a VariablePair are consulted wherever one is.',
    note='Trusted: clang AST/CFG; assumes entities are only created through create(). Fourteen crashes/ownership defects found by these rules were replayed and repaired (fix commits listed in known_findings.json).',
    ref='DESIGN.md section 4, C09'),
  'C10': dict(
@@ -109,7 +109,7 @@ CLAIMED = {
    technique='static analysis: set/restore pairing of process-global libxml2 setters on all exits, dominance of removeAllIssues, unconditional re-initialisation of service state, effect/provenance scan of read-only services',
    text='Every libxml2 process-global setter call is paired with a restore of the saved value on every exit; each entry point empties its issue list before any issue can be added; every service Impl field written during a call is '
         'unconditionally re-initialised before its first use in that call (documented state exempt, each with its reason); no state-changing entity method is called from Printer/Validator/Analyser/Generator on an object that was not created inside the service. '
-        'Necessary conditions of purity; equality of results across histories is not executed.',
+        'Necessary conditions of purity; equality of results across histories is not executed. Added after round-2 seeding: (S1) every function-local static and namespace-scope variable is const (one model-independent cache exempted by name).',
    note='Trusted: clang AST/CFG/call graph; "state-changing" is computed from method bodies. Known findings: three unrestored xmlKeepBlanksDefault calls (pinned by Parser.parseResets).',
    ref='DESIGN.md section 4, C12'),
  'C13': dict(
